@@ -111,6 +111,25 @@ def composed_case(run, h, pts, rng, M, i):
     tok = token_dl(M, state_msg(st), req["bf_token"], u2e)
     csig = unblind_dl(bsign_dl(M, u1e, commit_msg_dl(M, close_msg(st), req["bf_close"])), req["bf_close"])
     ready = est["ready"]
+    pre = "Definition pk0 := %s.\nDefinition rp0 := %s.\n" % (coq_pk(M.pk), coq_rp(M.rp))
+    # establishment, composed: Requested::new, initialize, complete, activate, activate - against Protocol.full_establish
+    ec = est["e"]["chal"]["c"]
+    edl, rec = establish_dls(M, st, req["bf_token"], req["bf_close"], est["e"]["proof"], ec)
+    ectx = zlist(list(sha3(b"est")))
+    etr = eval_model(["r_establish_transcript pk0 %s %s %s %s %s" % (zlit(cid_scalar(cid)), zlit(cb), zlit(mb), coq_eproof_args(edl), ectx)],
+                     "C04e", preamble=pre)[0]
+    run.check_corr("corr.C04.establish_transcript", "".join(concretize_atoms(pts, etr)) == "".join(est["mi"]["chal"]["chunks"]), {"composed": i})
+    eterm = "r_full_establish (mk_m %s pk0 %s %s rp0) [(%s, %s)] %s %s %s %s %s %s %s %s %s %s %s %s %s %s" % (
+        coq_sk(M.key["sk"]), zlit(M.hr), zlit(M.gr), zlist(etr), zlit(ec), zlit(cid_scalar(cid)), zlit(cb), zlit(mb),
+        zlit(st["nonce"]), zlit(st["lock"]), zlit(req["bf_token"]), zlit(rec["kbf_s"]), zlist(rec["ks"]), zlit(req["bf_close"]),
+        zlit(rec["kbf_c"]), zlit(rec["kc"][1]), ectx, zlit(u1e), zlit(u2e))
+    er = eval_model([eterm], "C04g", preamble=pre)[0]
+    rd0 = parse_ready(ready)
+    s0 = rd0["state"]
+    eok = (er[0] == 1 and er[1] == 2 and er[2:7] == [cid_scalar(s0["cid"]), s0["nonce"], s0["lock"], s0["cb"], s0["mb"]]
+           and pts.g1(er[7]) == rd0["token"][0] and pts.g1(er[8]) == rd0["token"][1]
+           and pts.g1(er[9]) == rd0["close_sig"][0] and pts.g1(er[10]) == rd0["close_sig"][1])
+    run.check_corr("corr.C04.full_establish_composition", eok, {"composed": i, "model_head": er[:7]})
     amt = rng.choice([1, 0, -3, min(st["cb"], 5)])
     ctx = rng.randbytes(9)
     tape = [rand_nz(rng) for _ in range(89)]
@@ -152,7 +171,6 @@ def composed_case(run, h, pts, rng, M, i):
     old, new, newc = state_msg(started["old"]), state_msg(started["new"]), close_msg(started["new"])
     honest = build_pay(M, tok, old, new, newc, old[2], (digits(started["new"]["cb"]),) * 2, (digits(started["new"]["mb"]),) * 2, d, c)
     ctxh = zlist(list(sha3(ctx)))
-    pre = "Definition pk0 := %s.\nDefinition rp0 := %s.\n" % (coq_pk(M.pk), coq_rp(M.rp))
     tr = eval_model(["r_pay_transcript pk0 rp0 %s %s %s" % (zlit(unsc(nonce_hex)), coq_pproof(honest), ctxh)], "C04t", preamble=pre)[0]
     run.check_corr("corr.C04.pay_transcript", "".join(concretize_atoms(pts, tr)) == "".join(a["chal"]["chunks"]), case)
     mirror = Cust(M, "ready", ready, csig=csig, tok=tok)
